@@ -3463,10 +3463,10 @@ void run(Src &src, Case &c)
     const bool addImports = flag(5, 40);
     const bool addResets = flag(6, 60);
     const bool documentRoute = flag(7, 25);
-    // One math element with tens of thousands of children (valid, unusual in size): 4 cases in 1000, a validation of it takes
-    // half a minute. The sanitised build only gets a tenth of the size: its workers run with a 1 GiB stack (depth is not the
+    // One math element with tens of thousands of children (valid, unusual in size): 2 cases in 1000, a validation of it takes
+    // half a minute on an idle core (the plan gives the cases a long time limit). The sanitised build only gets a tenth of the size: its workers run with a 1 GiB stack (depth is not the
     // question there) and would spend minutes on it.
-    const bool longMath = flags != 0 && mix64(flags * 31 + 8) % 1000 < 4 && profile >= 1;
+    const bool longMath = flags != 0 && mix64(flags * 31 + 8) % 1000 < 2 && profile >= 1;
 #if defined(__SANITIZE_ADDRESS__)
     const int longMathScale = 10;
 #elif defined(__has_feature)
@@ -3565,13 +3565,13 @@ void run(Src &src, Case &c)
             std::string content;
             bool wide = mix64(flags * 17 + 3) % 2 == 0;
             if (wide) {
-                // one plus with 40 000 operands
+                // one plus with 24 000 operands
                 content = "<apply><eq/>" + x + "<apply><plus/>";
-                for (int i = 0; i < 40000 / longMathScale; ++i) {
+                for (int i = 0; i < 24000 / longMathScale; ++i) {
                     content += one;
                 }
                 content += "</apply></apply>";
-                longMathNote = "component " + q(comp.name) + " additionally has a math element with one equation whose right-hand side is a plus with " + std::to_string(40000 / longMathScale) + " operands";
+                longMathNote = "component " + q(comp.name) + " additionally has a math element with one equation whose right-hand side is a plus with " + std::to_string(24000 / longMathScale) + " operands";
             } else {
                 for (int i = 0; i < 20000 / longMathScale; ++i) {
                     content += "<apply><eq/>" + x + one + "</apply>\n";
